@@ -213,6 +213,9 @@ def digraph_conformance(ev, rep, tier, rng, tmp, extra_grammars):
     if drift:
         print('DRIFT property=C02 lalr_analysis.digraph returned a result that is not the least solution for %d call(s); '
               'judging the tables of those grammars' % len(drift))
+    # and every call lark's own test suite makes (grammars outside my families)
+    from . import suite
+    suite.digraph_calls(ev, tmp)
     return sorted({c['gtext'] for c in drift})
 
 
